@@ -82,12 +82,12 @@ pub struct Case {
 }
 
 fn raw_dep() -> impl Strategy<Value = RawDep> {
-	(any::<u16>(), any::<u16>(), prop_oneof![2 => Just(false), 1 => Just(true)], proptest::option::weighted(0.5, prop_oneof![4 => Just(0u8), 3 => Just(1u8), 1 => Just(2u8), 1 => Just(3u8), 1 => Just(4u8)]), proptest::option::weighted(0.3, prop_oneof![5 => Just(false), 1 => Just(true)]), prop_oneof![8 => Just(0u8), 2 => Just(1u8), 2 => Just(2u8), 2 => Just(3u8), 1 => Just(4u8), 2 => Just(5u8), 1 => Just(6u8), 1 => Just(7u8)])
+	(any::<u16>(), any::<u16>(), prop_oneof![2 => Just(false), 1 => Just(true)], proptest::option::weighted(0.5, prop_oneof![4 => Just(0u8), 3 => Just(1u8), 1 => Just(2u8), 1 => Just(3u8), 1 => Just(4u8)]), proptest::option::weighted(0.3, prop_oneof![5 => Just(false), 1 => Just(true)]), prop_oneof![8 => Just(0u8), 2 => Just(1u8), 2 => Just(2u8), 2 => Just(3u8), 1 => Just(4u8), 2 => Just(5u8), 1 => Just(6u8), 1 => Just(7u8), 2 => Just(8u8), 1 => Just(9u8)])
 		.prop_map(|(lib, ver, omit_version, scope, optional, variant)| RawDep { lib, ver, omit_version, scope, optional, variant })
 }
 
 fn raw_managed() -> impl Strategy<Value = RawManaged> {
-	(any::<u16>(), any::<u16>(), proptest::option::weighted(0.4, 0u8..5), proptest::option::weighted(0.15, any::<bool>()), prop_oneof![8 => Just(0u8), 2 => Just(1u8), 2 => Just(2u8), 2 => Just(3u8), 1 => Just(4u8), 2 => Just(5u8), 1 => Just(6u8), 1 => Just(7u8)]).prop_map(|(lib, ver, scope, optional, variant)| RawManaged { lib, ver, scope, optional, variant })
+	(any::<u16>(), any::<u16>(), proptest::option::weighted(0.4, 0u8..5), proptest::option::weighted(0.15, any::<bool>()), prop_oneof![8 => Just(0u8), 2 => Just(1u8), 2 => Just(2u8), 2 => Just(3u8), 1 => Just(4u8), 2 => Just(5u8), 1 => Just(6u8), 1 => Just(7u8), 2 => Just(8u8), 1 => Just(9u8)]).prop_map(|(lib, ver, scope, optional, variant)| RawManaged { lib, ver, scope, optional, variant })
 }
 
 fn raw_pom(max_deps: usize) -> impl Strategy<Value = RawPom> {
@@ -167,6 +167,9 @@ fn variant_of(v: u8) -> (Option<String>, Option<String>) {
 		5 => (Some("jar".into()), None),
 		6 => (Some("war".into()), None),
 		7 => (Some("ejb".into()), Some("natives".into())),
+		// a type that has a classifier of its own, with another classifier spelled out: the written one counts
+		8 => (Some("test-jar".into()), Some("natives".into())),
+		9 => (Some("test-jar".into()), Some("tests".into())),
 		_ => (None, None),
 	}
 }
